@@ -1,6 +1,7 @@
 import GomlVerif.Lemmas.InferTotal
 import GomlVerif.Model.InferSpec
 import GomlVerif.Lemmas.InferCert
+import GomlVerif.Lemmas.InferJustGo
 /-!
 Theorems about the model of the typer's constraint generation (`Model/Infer.lean`, the fragment of
 `typer/check.rs` + `localenv.rs` + `toplevel.rs::typecheck_fn` listed there), composed with those about
@@ -121,6 +122,109 @@ theorem infer_sound_partial {G fuel params ret body σ0 r}
       exact checkB_sound hR (fun _ => Or.inl rfl) (hall o (List.mem_append_left _ ho))
     · exact checkB_sound (o := .rel t.ty ret) hR (fun _ => Or.inl rfl) (hall _ (List.mem_append_right _ (by simp)))
 
+/-- the binder table `B` gives every parameter and every binder of the tree its type — what name resolution
+provides (one `LocalId` per binder); e.g. `fun x => lookupScope x (params ++ binders tree)` when the ids are distinct -/
+def BinderTable (B : Nat → Option Ty) (params : List (Nat × Ty)) (t : TExpr) : Prop := BIn B (params ++ binders t)
+
+/-- **Every tree generation returns is justified by the queue it returns** (no per-function certificate):
+if `typecheck_fn` up to `solve` pushed no diagnostic, every obligation of the elaborated body — and "the body has
+the declared result type" — is an identity, a queued `TypeEqual` (`rel`), a queued `StructFieldAccess` (`fld`), a
+binder of the table, an instance made by `inst_ty`, a component of a syntactic tuple type.  By induction over the
+mutual recursor of `IExpr` (`Lemmas/InferJustGo.lean::go_just`). -/
+theorem genFn_justified {G params ret body σ0 t s} (h : genFn G params ret body σ0 = some (t, s)) (hd : s.diags = [])
+    {B} (hB : BinderTable B params t) :
+    JL B G.funs s.cs (obls t ++ [.rel t.ty ret]) := by
+  unfold genFn at h
+  obtain ⟨t1, Γ1, s1, h1, l1⟩ := go_le body (some ret) G (insertParams params (pushScope [[]]))
+    { σ := σ0, cs := [], diags := [], recs := [] }
+  simp only [h1, Option.some.injEq, Prod.mk.injEq] at h
+  obtain ⟨rfl, rfl⟩ := h
+  have lp := le_popScope Γ1 s1
+  have hE : EnvAll B (insertParams params (pushScope [[]])) := by
+    apply envAll_params _ _ hB.left
+    intro sc hm p hp
+    simp only [pushScope, List.mem_cons, List.not_mem_nil, or_false] at hm
+    rcases hm with e | e <;> subst e <;> cases hp
+  obtain ⟨_, j, x⟩ := go_just body (some ret) G _ _ t1 Γ1 s1 h1 (lp.nodiag hd) B hB.right hE
+  exact JL.append (j.mono lp) (JL.one (Or.inr (lp.mem _ (x ret rfl))))
+
+/-- **Acceptance is type-sound** (fragment of `Model/Infer.lean`).  If `typecheck_fn` ends WITHOUT ANY DIAGNOSTIC — none
+from generation, none from `solve` — then, for every binder table `B` (name resolution's: one `LocalId` per binder), the
+elaborated body is well typed in the declarative judgement, with types compared in the FINAL store (`AgreeIn r.σ`:
+identical, or agreeing normal forms — equal up to array lengths one of which is the wildcard, which is what the real
+`unify` guarantees): every use of a local has the type of its binder, every reference to a top-level function carries an
+instance of its signature, every callee has the function type made of the argument types and the type of the call,
+conditions are `bool`, branches / arms / operands / `let` values / patterns agree, projections select a component; and the
+body has the declared result type.  No certificate: `genFn_justified` + `solve_eq_sound`.
+A field access `e.f : r` is judged by `F`: here only "its `StructFieldAccess(e, f, r)` was queued and `solve` ended
+without a diagnostic and with an empty queue"; what that MEANS (r is the instantiated field type) is
+not stated yet (see DESIGN, Limits). -/
+theorem infer_sound {G fuel params ret body σ0 r}
+    (h : inferFn G fuel params ret body σ0 = .ok r) (hd : r.diags = []) (hW : WF σ0)
+    {B} (hB : BinderTable B params r.tree) :
+    WtF (AgreeIn r.σ) (fun e f res => Constraint.field e f res ∈ r.gen.cs) B G.funs r.tree ∧
+    AgreeIn r.σ r.tree.ty ret := by
+  unfold inferFn at h
+  cases hg : genFn G params ret body σ0 with
+  | none => simp [hg] at h
+  | some p =>
+    obtain ⟨t, s⟩ := p
+    simp only [hg] at h
+    have hσ : s.σ.rep = σ0.rep ∧ s.σ.val = σ0.val := by
+      unfold genFn at hg
+      obtain ⟨t1, Γ1, s1, h1, l1⟩ := go_le body (some ret) G (insertParams params (pushScope [[]]))
+        { σ := σ0, cs := [], diags := [], recs := [] }
+      simp only [h1, Option.some.injEq, Prod.mk.injEq] at hg
+      obtain ⟨_, rfl⟩ := hg
+      have l2 := l1.trans (le_popScope Γ1 s1)
+      exact ⟨l2.rep, l2.val⟩
+    obtain ⟨w, _⟩ := ext_of_same hσ.1 hσ.2 hW
+    cases hs : solve G.env fuel s.σ s.cs with
+    | noFuel => simp [hs] at h
+    | noRounds => simp [hs] at h
+    | done σ' sd rest =>
+      simp only [hs] at h
+      injection h with h; subst h
+      simp only [List.append_eq_nil_iff, List.map_eq_nil_iff] at hd
+      rw [hd.2] at hs
+      have hR : ∀ a b, Constraint.eq a b ∈ s.cs → AgreeIn σ' a b := by
+        intro a b hm
+        obtain ⟨x, y, ⟨f1, hx⟩, ⟨g1, hy⟩, ha⟩ := solve_eq_sound w hs a b hm
+        exact Or.inr ⟨f1, g1, x, y, hx, hy, ha⟩
+      have hj := genFn_justified hg hd.1 hB
+      have conv : ∀ o, J B G.funs s.cs o → HoldsF (AgreeIn σ') (fun e f res => Constraint.field e f res ∈ s.cs) B G.funs o := by
+        intro o ho
+        cases o with
+        | rel a b => exact ho.elim Or.inl (hR a b)
+        | same a b => exact ho
+        | bound x ty => exact ho
+        | inst n ty => exact ho
+        | projOk a i ty => exact ho
+        | fld e f res => exact ho
+        | bad => exact ho
+      constructor
+      · intro o ho
+        exact conv o (hj o (List.mem_append_left _ ho))
+      · exact (hj (.rel t.ty ret) (List.mem_append_right _ (by simp))).elim Or.inl (hR _ _)
+
+/-- for a body without field accesses this is `Wt` outright -/
+theorem infer_sound_nofield {G fuel params ret body σ0 r}
+    (h : inferFn G fuel params ret body σ0 = .ok r) (hd : r.diags = []) (hW : WF σ0)
+    {B} (hB : BinderTable B params r.tree) (nf : ∀ e f res, Obl.fld e f res ∉ obls r.tree) :
+    Wt (AgreeIn r.σ) B G.funs r.tree ∧ AgreeIn r.σ r.tree.ty ret := by
+  obtain ⟨h1, h2⟩ := infer_sound h hd hW hB
+  refine ⟨?_, h2⟩
+  intro o ho
+  have := h1 o ho
+  cases o with
+  | fld e f res => exact (nf e f res ho).elim
+  | rel a b => exact this
+  | same a b => exact this
+  | bound x ty => exact this
+  | inst n ty => exact this
+  | projOk a i ty => exact this
+  | bad => exact this
+
 /-! ### non-vacuity -/
 section Examples
 
@@ -149,6 +253,15 @@ def summary (G : GEnv) (params : List (Nat × Ty)) (ret : Ty) (body : IExpr) : O
 /-- the hypotheses of `infer_sound_partial` are satisfiable on a non-trivial body: no diagnostic, 8 keys
 (closure parameter, `T`, the results of the calls, `+`, `A`, `B`), 11 queued constraints, the certificate holds -/
 example : summary exG [(0, i32)] i32 exBody = some ([], 8, 11, true) := by decide
+
+/-- the hypothesis `BinderTable` of `infer_sound` is satisfiable for that body: its binder ids are distinct, so looking
+a binder up in `params ++ binders tree` returns its own type (checked with the executable type equality) -/
+example : (match inferFn exG 40 [(0, i32)] i32 exBody Store.empty with
+    | .ok r => ([(0, i32)] ++ binders r.tree).all fun p =>
+        match lookupScope p.1 ([(0, i32)] ++ binders r.tree) with
+        | some ty => Match.tyEqB ty p.2
+        | none => false
+    | _ => false) = true := by decide
 
 /-- … and its conclusion is not trivial: the same body at result type `bool` is rejected (by `unify`) -/
 example : (summary exG [(0, i32)] .bool exBody).map (·.1) = some ["not-equal", "not-equal"] := by decide
